@@ -10,6 +10,7 @@ import numpy as np
 
 from EasyFEA import Models, Simulations, MatrixType
 
+from . import _suite
 from ..core import Ctx, quiet, relerr
 from ..gen import meshes as gm
 from ..gen import materials as gmat
@@ -82,6 +83,9 @@ def cases(tier: str, seed: int) -> list[dict]:
     for i, c in enumerate(out):
         c["id"] = f"C02-{i:05d}-{c['kind']}-{c['dim']}d-{c['et']}-{c.get('law', c.get('theory', 'k'))}-{c['mesh']}-{c.get('orient', '')}"
         c["index"] = i
+    for c in _suite.suite_cases(PROP, tier):
+        c["index"] = len(out)
+        out.append(c)
     return out
 
 
@@ -126,6 +130,8 @@ def _check_K(ctx: Ctx, K, dofs, R, key: str, nrb: int):
 
 
 def run_case(case: dict, ctx: Ctx) -> None:
+    if case.get("fam") == "suite":
+        return _suite.run_suite(case, ctx, PROP)
     rng = np.random.default_rng([case["seed"], NUM, case["index"]])
     if case["kind"] == "beam":
         return run_beam(case, ctx, rng)
